@@ -14,6 +14,7 @@ pub fn exec(w: &mut World, name: &str, op: &Value) -> R<Value> {
         "c14.observe" => observe(w, op),
         "c14.stats" => stats(w, op),
         "c14.restart" => restart(w, op),
+        "c14.bulk" => bulk(w, op),
         _ => Err(format!("unknown op {name}")),
     }
 }
@@ -151,6 +152,59 @@ fn restart(w: &mut World, op: &Value) -> R<Value> {
             seen.entry(b).or_insert(ci + 1);
         }
     }
+    // Two more fresh processes under one and the same SIMULATED environment: wall clock frozen at
+    // the same instant, same process id, same address-space layout (shim/simenv.c through
+    // LD_PRELOAD, setarch -R). They differ in nothing but what the OS entropy source gives them.
+    {
+        let shim = exe.parent().and_then(|d| d.parent()).map(|d| d.join("simenv.so")).filter(|f| f.exists());
+        match shim {
+            None => w.bump("probe.c14.simenv-shim-missing"),
+            Some(shim) => {
+                let spawn = || {
+                    std::process::Command::new("setarch")
+                        .arg("-R")
+                        .arg(&exe)
+                        .args(["c14-child", &per_site.to_string()])
+                        .env("LD_PRELOAD", &shim)
+                        .env("GMSIM_CLOCK_NS", "1790000000123456789")
+                        .env("GMSIM_PID", "4242")
+                        .stdout(std::process::Stdio::piped())
+                        .stderr(std::process::Stdio::piped())
+                        .spawn()
+                };
+                let kids: Vec<_> = (0..2).map(|_| spawn()).collect();
+                let outs: Vec<_> = kids.into_iter().map(|c| c.and_then(|c| c.wait_with_output())).collect();
+                let mut sets: Vec<Vec<String>> = vec![];
+                let mut envs: Vec<String> = vec![];
+                for o in outs {
+                    let o = o.map_err(|e| format!("cannot spawn simulated-environment child: {e}"))?;
+                    if !o.status.success() {
+                        return Err(format!("c14 simulated-environment child failed: {}", String::from_utf8_lossy(&o.stderr)));
+                    }
+                    let txt = String::from_utf8_lossy(&o.stdout).to_string();
+                    envs.push(txt.lines().find(|l| l.starts_with("env ")).unwrap_or("").to_string());
+                    sets.push(txt.lines().filter_map(|l| l.strip_prefix("scalar ")).filter_map(|l| l.split_whitespace().last().map(String::from)).collect());
+                }
+                // the simulation took effect: both report the simulated clock and process id
+                if envs.len() == 2 && envs[0] == "env 1790000000123456789 4242" && envs[1] == envs[0] {
+                    w.bump_by("probe.c14.simenv-children", 2);
+                } else {
+                    w.bump("probe.c14.simenv-ineffective");
+                }
+                let a: std::collections::BTreeSet<&String> = sets[0].iter().collect();
+                let common: Vec<&String> = sets[1].iter().filter(|x| a.contains(x)).collect();
+                let key = json!({"entry": "process-restart", "class": "scalar-repeats-under-equal-simulated-environment", "outcome": "Ok"});
+                let n = sets[0].len() + sets[1].len();
+                w.check("C14", "M3-simenv-fresh", common.is_empty() && n > 0, fnv(&[b"c14simenv"]), key, || {
+                    format!(
+                        "two fresh processes with the same simulated wall clock, process id and address layout produced {} common scalars out of {}: {} ... (the scalars do not come from the OS entropy source)",
+                        common.len(), n, common.iter().take(3).map(|s| s.as_str()).collect::<Vec<_>>().join(", ")
+                    )
+                });
+                w.bump_by("probe.c14.simenv-scalars", n as u64);
+            }
+        }
+    }
     // ... and neither must concurrent threads of this process (per-thread generators seeded alike)
     let nthreads = 4usize;
     let handles: Vec<_> = (0..nthreads)
@@ -194,4 +248,53 @@ fn restart(w: &mut World, op: &Value) -> R<Value> {
     });
     w.bump_by("probe.c14.m3-restart-scalars", total as u64);
     Ok(json!({"children": procs, "scalars": total}))
+}
+
+/// Many scalars from the real generator in one process, by the cheapest route to it (SM9: the
+/// public `sm9_random_u256`; SM2: key generation). A generator whose scalars are determined by a
+/// short internal value (a 32-bit seed per scalar, a truncated counter) repeats itself within a
+/// few hundred thousand draws; a few thousand show nothing.
+fn bulk(w: &mut World, op: &Value) -> R<Value> {
+    use crate::simrng::{run_lib, RngScript};
+    w.nondeterministic = true;
+    let group = gs(op, "group")?.to_string();
+    let n = gu(op, "n")? as usize;
+    let m = order_of(&group);
+    let n_limbs = crate::libglue::big_to_limbs(&m);
+    let script = RngScript { cands: vec![], filler: 0, real: true };
+    let mut seen: std::collections::HashSet<[u8; 32]> = std::collections::HashSet::with_capacity(n);
+    let mut dups: Vec<String> = vec![];
+    let mut out_of_range = 0usize;
+    let mut got = 0usize;
+    for k in 0..n {
+        crate::runner::touch();
+        let (_, log) = run_lib(&script, || {
+            if group == "sm2" {
+                let _ = gm_sm2::key::gen_keypair();
+            } else {
+                let _ = gm_sm9::u256::sm9_random_u256(&n_limbs);
+            }
+        });
+        for a in log.accepted {
+            got += 1;
+            let v = BigUint::from_bytes_be(&a);
+            if v.is_zero() || v >= m {
+                out_of_range += 1;
+            }
+            if !seen.insert(a) && dups.len() < 8 {
+                dups.push(format!("{} (draw {k})", hex::encode(a)));
+            }
+            if got <= 20_000 {
+                w.observed.push((group.clone(), a.to_vec()));
+            }
+        }
+    }
+    let case = fnv(&[b"c14bulk", group.as_bytes()]);
+    let key = json!({"entry": format!("generator.{group}"), "class": "scalar-repeats-within-bulk", "outcome": "Ok"});
+    w.check("C14", "M3-bulk-fresh", dups.is_empty() && got >= n, case, key.clone(), || {
+        format!("{group}: {got} scalars from the real generator in one process: repeated: {}", dups.join(", "))
+    });
+    w.check("C14", "M3-in-range", out_of_range == 0, case, key, || format!("{group}: {out_of_range} bulk scalars outside [1, order-1]"));
+    w.bump_by(&format!("probe.c14.m3-bulk-scalars-{group}"), got as u64);
+    Ok(json!({"scalars": got}))
 }
